@@ -206,6 +206,11 @@ class OptimizationAbstract(ABC, Generic[T]):
         if not self._config:
             raise ValueError("Invalid configuration")
 
+        # per-run bookkeeping: a reused instance must start from the same state as a fresh one
+        self._current_cycle = 1
+        self._errors = []
+        self._error_diffs = []
+
         np.random.seed(task.seed)
         evolution: list[Population] = []
 
